@@ -74,6 +74,18 @@ def join(a: V | None, b: V | None) -> V | None:
     items = a.items if (a.items is not None and b.items is not None and len(a.items) == len(b.items)) else None
     if items is not None:
         items = tuple(join(x, y) for x, y in zip(a.items, b.items))
+    else:
+        # `pair = (x.cores, x.R) if x is not None else None`: joining a display with a fresh non-container (None, a number) keeps its positions
+        plain = lambda v: v.roots == frozenset([F]) and v.elem is None and v.attrs is None and v.items is None
+        bare = lambda v: v.kind == "?" and v.elem is None and v.attrs is None and v.items is None       # an object known only by its path
+        if a.items is not None and plain(b):
+            items = a.items
+        elif b.items is not None and plain(a):
+            items = b.items
+        elif a.items is not None and bare(b):
+            items = tuple(join(x, V(_step(b.roots, f"[{i}]"))) for i, x in enumerate(a.items))      # position i of whatever the path denotes
+        elif b.items is not None and bare(a):
+            items = tuple(join(V(_step(a.roots, f"[{i}]")), x) for i, x in enumerate(b.items))
     return V(a.roots | b.roots, kind, elem, attrs, items)
 
 
@@ -106,7 +118,13 @@ def attr_of(v: V, name: str) -> V:
 
 def resolve_path(v: V, steps) -> V:
     for s in steps:
-        v = elem_of(v) if s == "[*]" else attr_of(v, s[1:])
+        if s == "[*]":
+            v = elem_of(v)
+        elif s.startswith("[") and s[1:-1].isdigit():
+            i = int(s[1:-1])
+            v = v.items[i] if v.items is not None and i < len(v.items) else elem_of(v)      # position i of a display, else any element
+        else:
+            v = attr_of(v, s[1:])
     return v
 
 
@@ -344,6 +362,10 @@ class _FuncAnalysis:
                     env = self.assign(e.value, V(v.roots, "L", elem_of(v)), env, stmt)
                 elif v.items is not None and i < len(v.items) and not any(isinstance(x, ast.Starred) for x in t.elts):
                     env = self.assign(e, v.items[i], env, stmt)
+                elif v.kind not in ("T", "L") and v.elem is None and v.attrs is None and not any(isinstance(x, ast.Starred) for x in t.elts) \
+                        and any(r[0] == "P" for r in v.roots):
+                    # `cores0, ranks0 = pair` for a parameter (path) that is a pair: position i of it - resolved against the actual display at the call
+                    env = self.assign(e, V(_step(v.roots, f"[{i}]")), env, stmt)
                 else:
                     env = self.assign(e, elem_of(v), env, stmt)
             return env
